@@ -1346,6 +1346,14 @@ theorem processLine_seg (l : RLine) (h : l.ok) (c : Cli) (rest : Bytes) (t : Lis
   have hl4 : (digits3 l.code ++ 32 :: l.text).length > 4 := by simp [digits3]; omega
   have hd4 : (digits3 l.code ++ 32 :: l.text).drop 4 = l.text := by simp [digits3]
   rw [if_pos hl4, hd4]
+  have ht : toInt32 (l.code : Int) = (l.code : Int) := by
+    have := h.1
+    unfold toInt32
+    simp only
+    have hm : (l.code : Int) % 4294967296 = (l.code : Int) := by omega
+    rw [hm]
+    split <;> omega
+  simp only [ht]
   unfold RLine.out RLine.err
   by_cases h103 : l.code = 103
   · simp [h103]
